@@ -137,7 +137,12 @@ def run_fault_variant(case):  # noqa: C901
         counters['fault-points'] += len(elig)
         is_repack = case['variant'].get('is_repack')
         for k, ev in enumerate(elig):
-            for errname in errnames_for(ev['kind'], tier):
+            errs = errnames_for(ev['kind'], tier)
+            if name.startswith('add_object:readd-damaged') and not ev['kind'].startswith('sql:'):
+                # a PermissionError while checking or replacing the existing copy is the library's designed degraded mode (Windows
+                # lock: the new copy is parked in duplicates/ for clean_storage to put in place), so only real I/O errors are injected
+                errs = ['ENOSPC' if ev['kind'] in ('write', 'flush', 'close-w', 'truncate') else 'EIO']
+            for errname in errs:
                 rundir, st, res = crashlab.fault_run(tmpl, k, errname, kinds)
                 try:
                     if st != 'ok' or res is None:
